@@ -23,6 +23,15 @@ Proof. unfold subflags. rewrite !has_spec. auto. Qed.
 Lemma has_mono g f b : subflags g f = true -> has g b = true -> has f b = true.
 Proof. unfold subflags. rewrite !has_spec. auto. Qed.
 
+Lemma has_weaken f a b : has a b = true -> has f a = true -> has f b = true.
+Proof. rewrite !has_spec. auto. Qed.
+
+Lemma callt_has_call f : has f callt_required = true -> has f AllowCall = true.
+Proof. apply has_weaken. reflexivity. Qed.
+
+Lemma callt_has_read f : has f callt_required = true -> has f ReadStates = true.
+Proof. apply has_weaken. reflexivity. Qed.
+
 Lemma callee_flags_sub f r s : subflags (callee_flags f r s) f = true.
 Proof.
   apply has_spec. intros n. unfold callee_flags. rewrite N.land_spec. intros H. apply andb_true_iff in H. tauto.
@@ -253,12 +262,15 @@ Section instr_induction.
   Hypothesis Hsys : forall n, P (ISys n).
   Hypothesis Hnat : forall c m a r, P (INative c m a r).
   Hypothesis Hcall : forall r s body, Forall P body -> P (ICall r s body).
+  Hypothesis Hcallt : forall r s body, Forall P body -> P (ICallT r s body).
   Hypothesis Hload : forall r body, Forall P body -> P (ILoad r body).
   Fixpoint instr_ind2 (i : instr) : P i :=
     match i with
     | ISys n => Hsys n
     | INative c m a r => Hnat c m a r
     | ICall r s body => Hcall r s body ((fix go (l : list instr) : Forall P l :=
+                           match l with [] => Forall_nil P | x :: t => Forall_cons x (instr_ind2 x) (go t) end) body)
+    | ICallT r s body => Hcallt r s body ((fix go (l : list instr) : Forall P l :=
                            match l with [] => Forall_nil P | x :: t => Forall_cons x (instr_ind2 x) (go t) end) body)
     | ILoad r body => Hload r body ((fix go (l : list instr) : Forall P l :=
                            match l with [] => Forall_nil P | x :: t => Forall_cons x (instr_ind2 x) (go t) end) body)
@@ -271,6 +283,7 @@ Fixpoint f39_free (i : instr) : bool :=
   | ISys _ => true
   | INative c m _ _ => negb (is_native_indirect_caller c m)
   | ICall _ _ body => forallb f39_free body
+  | ICallT _ _ body => forallb f39_free body
   | ILoad _ body => forallb f39_free body
   end.
 
@@ -316,7 +329,7 @@ Section machine_proofs.
 
   Theorem effects_in_order : forall i f, f39_free i = true -> Forall (eff_ok f) (fst (exec itab ntab f i)).
   Proof.
-    induction i as [name | c m a r | r s body IH | r body IH] using instr_ind2; intros f Hfree; simpl.
+    induction i as [name | c m a r | r s body IH | r s body IH | r body IH] using instr_ind2; intros f Hfree; simpl.
     - destruct (sys_step itab f name) eqn:S; simpl; [eapply sys_step_ok; eauto | constructor].
     - destruct (sys_step itab f "System.Contract.Call") as [tr0|] eqn:S; simpl; [|constructor].
       apply sys_step_ok in S.
@@ -334,6 +347,13 @@ Section machine_proofs.
     - destruct (sys_step itab f "System.Contract.Call") as [tr0|] eqn:S; simpl; [|constructor].
       apply sys_step_ok in S.
       destruct (run_with _ body) as [tr ok] eqn:R. simpl. apply Forall_app; split; auto.
+      change tr with (fst (tr, ok)). rewrite <- R. apply run_with_Forall.
+      simpl in Hfree. rewrite forallb_forall in Hfree. rewrite Forall_forall in *. intros x Hx.
+      specialize (IH x Hx (callee_flags f r s) (Hfree x Hx)). rewrite Forall_forall in *.
+      intros y Hy. eapply eff_ok_weaken; [apply callee_flags_sub | apply IH; auto].
+    - destruct (has f callt_required) eqn:G; simpl; [|constructor].
+      destruct (run_with _ body) as [tr ok] eqn:R. simpl. constructor.
+      { split; [apply subflags_refl | simpl; apply callt_has_call; auto]. }
       change tr with (fst (tr, ok)). rewrite <- R. apply run_with_Forall.
       simpl in Hfree. rewrite forallb_forall in Hfree. rewrite Forall_forall in *. intros x Hx.
       specialize (IH x Hx (callee_flags f r s) (Hfree x Hx)). rewrite Forall_forall in *.
@@ -359,7 +379,7 @@ Section machine_proofs.
 
   Theorem writes_notifies_in_order : forall i f, Forall (eff_ok_wn f) (fst (exec itab ntab f i)).
   Proof.
-    induction i as [name | c m a r | r s body IH | r body IH] using instr_ind2; intros f; simpl.
+    induction i as [name | c m a r | r s body IH | r s body IH | r body IH] using instr_ind2; intros f; simpl.
     - destruct (sys_step itab f name) eqn:S; simpl; [|constructor].
       eapply Forall_impl; [apply eff_ok_is_wn | eapply sys_step_ok; eauto].
     - destruct (sys_step itab f "System.Contract.Call") as [tr0|] eqn:S; simpl; [|constructor].
@@ -377,6 +397,13 @@ Section machine_proofs.
     - destruct (sys_step itab f "System.Contract.Call") as [tr0|] eqn:S; simpl; [|constructor].
       apply sys_step_ok in S. apply (Forall_impl _ (eff_ok_is_wn f)) in S.
       destruct (run_with _ body) as [tr ok] eqn:R. simpl. apply Forall_app; split; auto.
+      change tr with (fst (tr, ok)). rewrite <- R. apply run_with_Forall.
+      rewrite Forall_forall in *. intros x Hx.
+      specialize (IH x Hx (callee_flags f r s)). rewrite Forall_forall in *.
+      intros y Hy. eapply eff_ok_wn_weaken; [apply callee_flags_sub | apply IH; auto].
+    - destruct (has f callt_required) eqn:G; simpl; [|constructor].
+      destruct (run_with _ body) as [tr ok] eqn:R. simpl. constructor.
+      { split; [apply subflags_refl | simpl; intros Hne; exfalso; apply Hne; reflexivity]. }
       change tr with (fst (tr, ok)). rewrite <- R. apply run_with_Forall.
       rewrite Forall_forall in *. intros x Hx.
       specialize (IH x Hx (callee_flags f r s)). rewrite Forall_forall in *.
@@ -515,7 +542,7 @@ Proof.
     unfold syscall_gate in G. assert (has f AllowCall = true) as H.
     { rewrite has_spec in *. intros n Hn'. apply G. apply Hca. exact Hn'. }
     rewrite H in Hf. discriminate. }
-  intros i f Hf. unfold exec_now. destruct i as [name | c m a r | r s body | r body]; simpl.
+  intros i f Hf. unfold exec_now. destruct i as [name | c m a r | r s body | r s body | r body]; simpl.
   - destruct (sys_step interops f name) as [tr|] eqn:S; simpl; auto.
     destruct (has_effect ECall tr) eqn:H; auto. apply has_effect_In in H. destruct H as [g Hin].
     pose proof (sys_step_ok interops itab_now _ _ _ S) as Hall. rewrite Forall_forall in Hall.
@@ -524,9 +551,25 @@ Proof.
     exfalso. eapply Hgate; eauto. reflexivity.
   - destruct (sys_step interops f "System.Contract.Call") as [tr0|] eqn:S; simpl; auto.
     exfalso. eapply Hgate; eauto. reflexivity.
+  - destruct (has f callt_required) eqn:G; simpl; auto.
+    apply callt_has_call in G. congruence.
   - destruct (sys_step interops f "System.Runtime.LoadScript") as [tr0|] eqn:S; simpl; auto.
     exfalso. eapply Hgate; eauto. reflexivity.
 Qed.
+
+(* CALLT needs both ReadStates and AllowCall in the executing frame, whatever the token says *)
+Theorem callt_requires_both : forall itab ntab f r s body,
+  has f ReadStates = false \/ has f AllowCall = false -> exec itab ntab f (ICallT r s body) = ([], false).
+Proof.
+  intros itab ntab f r s body H. simpl. destruct (has f callt_required) eqn:G; auto.
+  destruct H as [H|H]; [apply callt_has_read in G | apply callt_has_call in G]; congruence.
+Qed.
+
+(* and the callee of a CALLT runs with  caller's flags & token flags  (minus Write/Notify for a safe method): within both *)
+Theorem callt_callee_flags : forall f r s,
+  subflags (callee_flags f r s) f = true /\
+  (s = false -> subflags (callee_flags f r s) r = true).
+Proof. intros f r s. split; [apply callee_flags_sub | intros ->; apply callee_flags_requested]. Qed.
 
 (* F39.  The frame-level statement without the guard — every effect, calls included, is performed by a frame that has
    the effect's flag — is kept visible and is refuted by the model, which gives NeoToken.vote the call it really makes. *)
